@@ -10,4 +10,6 @@ sed "s|@REPO@|$REPO|" "$HERE/witness/Cargo.toml.in" > "$W/Cargo.toml"
 cp "$HERE/witness/src/lib.rs" "$W/src/lib.rs"
 cp "$REPO/Cargo.lock" "$W/Cargo.lock" 2>/dev/null || true
 cd "$W"
-CARGO_NET_OFFLINE=true CARGO_TARGET_DIR="$HERE/.work/target/witness" cargo +nightly test --doc --offline 2>&1
+# one witness build at a time: the target directory is shared between repos (disk), and two concurrent doc-test runs in it lose results
+mkdir -p "$HERE/.work/target"
+CARGO_NET_OFFLINE=true CARGO_TARGET_DIR="$HERE/.work/target/witness" flock "$HERE/.work/target/witness.lock" cargo +nightly test --doc --offline 2>&1
